@@ -88,15 +88,33 @@ def model_check(ctx):
     consts = {"N": n_all, "MaxDepth": 1, "Bound": 100000000, "SeedMode": '"all"', "PowMax": 4,
               "Scales": ctx.pick("{1, 2}", "{1, 2, 3}"), "FixF20": "TRUE" if fixed else "FALSE"}
     ctx.scope["mc_exhaustive"] = {"numerators": [-n_all, n_all], "denominators": [1, n_all], "pow": [0, 4]}
-    acts = ["AddSubCoprime", "AddSubShared", "AddSubRelaxedAct", "MulDivAct", "RemAct", "EuclidAct", "RatIntAct",
-            "IntRatAct", "UnaryAct"]
     cfg = fw.write_cfg(ctx.path("MC_RatioOps.cfg"), invariants=["ResultOK", "CanonInv"], constants=consts)
-    ctx.mc("mc-ops", SPECDIR, "RatioOps.tla", cfg, required_actions=acts, timeout=2400)
+    ctx.mc("mc-ops", SPECDIR, "RatioOps.tla", cfg, timeout=2400)
     # histories: results fed back as operands, canonicity is inductive
     hist = dict(consts, N=ctx.pick(6, 8), MaxDepth=3, Bound=ctx.pick(80, 150), SeedMode='"few"', PowMax=3, Scales="{1, 2}")
     ctx.scope["mc_histories"] = {"depth": 3, "bound": hist["Bound"], "registers": 2}
     cfg = fw.write_cfg(ctx.path("MC_RatioHist.cfg"), invariants=["ResultOK", "CanonInv"], constants=hist)
-    ctx.mc("mc-hist", SPECDIR, "RatioOps.tla", cfg, required_actions=acts, timeout=2400)
+    ctx.mc("mc-hist", SPECDIR, "RatioOps.tla", cfg, timeout=2400)
+    # vacuity control of the model: every branch class must be reached (small scope, tags printed per state)
+    cov = dict(consts, N=4, PowMax=2, Scales="{1, 2}")
+    cfg = fw.write_cfg(ctx.path("MC_RatioCov.cfg"), invariants=["ResultOK", "CanonInv", "CovEmit"], constants=cov)
+    r = ctx.mc("mc-cov", SPECDIR, "RatioOps.tla", cfg, timeout=900, workers=4)
+    tags = set(t for t in r.tagged("COV") if isinstance(t, str))
+    want = ["%s/qq/%s/%s" % (o, t, k) for o in ("mul", "div", "rem", "rem_euclid", "div_rem_euclid") for t in "RX"
+            for k in ("frac", "int", "zero")]
+    want += ["%s/qq/R/%s/%s" % (o, k, b) for o in ("add", "sub") for k in ("frac", "int", "zero") for b in ("coprime", "shared")
+             if not (k == "zero" and b == "shared" and False)]
+    want += ["%s/qq/X/%s" % (o, k) for o in ("add", "sub") for k in ("frac", "int", "zero")]
+    want += ["%s/qq/%s/panic" % (o, t) for o in ("div", "rem", "div_euclid", "rem_euclid", "div_rem_euclid") for t in "RX"]
+    want += ["%s/%s/%s/%s" % (o, f, t, k) for o in ("add", "sub", "mul", "div") for f in ("qi", "iq") for t in "RX"
+             for k in ("frac", "int", "zero")]
+    want += ["div/qi/R/panic", "div/iq/R/panic", "div/qi/X/panic", "div/iq/X/panic"]
+    want += ["%s/q/%s/%s" % (o, t, k) for o in ("inv", "sqr", "cubic", "pow") for t in "RX" for k in ("frac", "int")]
+    want += ["inv/q/R/panic", "inv/q/X/panic"] if fixed else []
+    missing = [w for w in want if w not in tags]
+    if missing:
+        raise fw.ToolError("vacuity: branch classes never reached in RatioOps: %s" % missing[:12])
+    ctx.scope["mc_branch_classes"] = len(tags)
     if not fixed:
         # re-finding run: without the Known_F20 disjunct TLC must exhibit the defect from the model alone
         small = dict(consts, N=2, Scales="{1}", PowMax=1)
